@@ -441,6 +441,8 @@ def _liveness(plan, res):
             w = e.rest.split(' ')
             if w[0] == 'NAME': names[w[1]] = True; gone.discard(w[1])
             elif w[0] in ('QUIT', 'DEST', 'RMI', 'NETDEAD') and len(w) > 1: gone.add(w[1])
+            elif w[0] == 'EXEC' and len(w) > 1: gone.add(w[1])       # the connection is on a body that has no actions yet ...
+            elif w[0] == 'EXECD' and len(w) > 1: gone.discard(w[1])  # ... until the harness has set it up (a fault may land in between)
     tx = res.tx()
     cons_tx = b''.join(bytes.fromhex(e.rest) for e in res.events if e.kind == 'cons_tx' and e.rest != '-')
     inputs = ' '.join(e.rest for e in res.events if e.kind == 'R' and e.rest.split(' ')[0] in ('INPUT', 'CHAR'))
